@@ -938,3 +938,107 @@ T('c02-twin-init-empty-check-early-return', 'C02', """        if os.listdir(self
                 'There is already some file or folder in the Container folder, I cannot initialise it!'
             )
 """)
+
+# ------------------------------------------------------------------------------------------------ C03
+M('c03-length-from-size', 'C03', "                    obj_dict['length'] = pack_handle.tell() - obj_dict['offset']\n\n                    # Appending for later bulk commit - see comments in add_streamed_objects_to_pack", "                    obj_dict['length'] = obj_dict['size']\n\n                    # Appending for later bulk commit - see comments in add_streamed_objects_to_pack", 'C03.R1')
+M('c03-repack-copies-old-offset', 'C03', "                    obj_dict['offset'] = write_pack_handle.tell()", "                    obj_dict['offset'] = offset", 'C03.R1')
+M('c03-cached-pack-end', 'C03', """                    obj_dict['offset'] = pack_handle.tell()
+                    try:
+                        with open(self._get_loose_path_from_hashkey(loose_hashkey), 'rb') as loose_handle:""", """                    obj_dict['offset'] = pack_end
+                    try:
+                        with open(self._get_loose_path_from_hashkey(loose_hashkey), 'rb') as loose_handle:""", 'C03.R1')
+M('c03-drop-unique', 'C03', "    hashkey = Column(String, nullable=False, unique=True, index=True)", "    hashkey = Column(String, nullable=False, index=True)", 'C03.R3', D)
+M('c03-drop-or-ignore', 'C03', """                        Obj.__table__.insert().prefix_with(  # pylint: disable=no-member
+                            'OR IGNORE'
+                        ),""", """                        Obj.__table__.insert(),""", 'C03.R3')
+M('c03-rename-length-column', 'C03', "    length = Column(Integer, nullable=False)", "    nbytes = Column(Integer, nullable=False)", 'C03.R', D)
+M('c03-rename-table', 'C03', "    __tablename__ = 'db_object'", "    __tablename__ = 'db_objects'", 'C03.R4', D)
+M('c03-key-from-prepass', 'C03', """                        (
+                            obj_dict['size'],
+                            obj_dict['hashkey'],
+                        ) = self._write_data_to_packfile(
+                            pack_handle=pack_handle,
+                            read_handle=stream,
+                            compress=compress,
+                            hash_type=self.hash_type,
+                        )""", """                        known_key = obj_dict.get('hashkey')
+                        (
+                            obj_dict['size'],
+                            written_key,
+                        ) = self._write_data_to_packfile(
+                            pack_handle=pack_handle,
+                            read_handle=stream,
+                            compress=compress,
+                            hash_type=None if known_key else self.hash_type,
+                        )
+                        obj_dict['hashkey'] = known_key or written_key""", 'C03.R1')
+M('c03-repack-replace-instead-of-link', 'C03', """        os.remove(self._get_pack_path_from_pack_id(pack_id))
+
+        # I need now to move the file back""", """        os.replace(
+            self._get_pack_path_from_pack_id(self._REPACK_PACK_ID, allow_repack_pack=True),
+            self._get_pack_path_from_pack_id(pack_id),
+        )
+
+        # I need now to move the file back""", 'C03.R5')
+T('c03-twin-offset-via-local', 'C03', """                    obj_dict['offset'] = pack_handle.tell()
+                    try:
+                        with open(self._get_loose_path_from_hashkey(loose_hashkey), 'rb') as loose_handle:""", """                    start_position = pack_handle.tell()
+                    obj_dict['offset'] = start_position
+                    try:
+                        with open(self._get_loose_path_from_hashkey(loose_hashkey), 'rb') as loose_handle:""")
+T('c03-twin-length-via-local', 'C03', "                    obj_dict['length'] = pack_handle.tell() - obj_dict['offset']\n\n                    # Appending for later bulk commit - see comments in add_streamed_objects_to_pack", "                    end_position = pack_handle.tell()\n                    obj_dict['length'] = end_position - obj_dict['offset']\n\n                    # Appending for later bulk commit - see comments in add_streamed_objects_to_pack")
+
+# ------------------------------------------------------------------------------------------------ later additions (after seeds)
+M('c05-clean-already-packed-stale', 'C05', """        if callback:
+            callback(
+                'init',
+                {
+                    'total': self.get_total_size()['total_size_loose'],""", """        if clean_loose_per_pack and existing_packed_hashkeys:
+            self._clean_loose_objects(existing_packed_hashkeys)
+        if callback:
+            callback(
+                'init',
+                {
+                    'total': self.get_total_size()['total_size_loose'],""", 'C05.R2')
+M('c02-clean-already-packed-stale', 'C02', """        if callback:
+            callback(
+                'init',
+                {
+                    'total': self.get_total_size()['total_size_loose'],""", """        if clean_loose_per_pack and existing_packed_hashkeys:
+            self._clean_loose_objects(existing_packed_hashkeys)
+        if callback:
+            callback(
+                'init',
+                {
+                    'total': self.get_total_size()['total_size_loose'],""", 'C02.R4')
+M('c11-empty-test-by-sum', 'C11', "        one_object_in_pack = session.execute(select(Obj.id).where(Obj.pack_id == pack_id).limit(1)).all()\n        if not one_object_in_pack:", "        one_object_in_pack = session.scalar(select(func.sum(Obj.size)).where(Obj.pack_id == pack_id))\n        if not one_object_in_pack:", 'C11.R4')
+M('c02-empty-test-by-sum', 'C02', "        one_object_in_pack = session.execute(select(Obj.id).where(Obj.pack_id == pack_id).limit(1)).all()\n        if not one_object_in_pack:", "        one_object_in_pack = session.scalar(select(func.sum(Obj.size)).where(Obj.pack_id == pack_id))\n        if not one_object_in_pack:", 'C02.R6')
+T('c11-twin-empty-test-by-count', 'C11', "        one_object_in_pack = session.execute(select(Obj.id).where(Obj.pack_id == pack_id).limit(1)).all()\n        if not one_object_in_pack:", "        one_object_in_pack = session.scalar(select(func.count()).select_from(Obj).where(Obj.pack_id == pack_id))\n        if not one_object_in_pack:")
+M('c11-delete-loop-early-break', 'C11', """            session.execute(stmt)
+            deleted_packed.update(deleted_this_chunk)
+""", """            session.execute(stmt)
+            deleted_packed.update(deleted_this_chunk)
+            if len(deleted_loose) + len(deleted_packed) >= len(hashkeys):
+                break
+""", 'C11.R1')
+M('c12-validate-skip-packed-loose', 'C12', "        all_loose = set(self._list_loose())\n\n        if callback:\n            callback(\n                action='init',\n                value={'total': len(all_loose), 'description': 'Loose objects'},", "        all_loose = set(self._list_loose())\n        all_loose.difference_update(self.list_all_objects() if False else [])\n\n        if callback:\n            callback(\n                action='init',\n                value={'total': len(all_loose), 'description': 'Loose objects'},", 'C12.R1')
+M('c12-rows-limit', 'C12', """                .where(Obj.pack_id == pack_id)
+                .order_by(Obj.offset)
+            )
+            for hashkey, size, offset, length, compressed in session.execute(stmt):""", """                .where(Obj.pack_id == pack_id)
+                .where(Obj.length > 0)
+                .order_by(Obj.offset)
+            )
+            for hashkey, size, offset, length, compressed in session.execute(stmt):""", 'C12.R2')
+M('c10-repack-skip-transfer-empty', 'C10', """                    obj_dict['offset'] = write_pack_handle.tell()
+""", """                    obj_dict['offset'] = write_pack_handle.tell()
+                    if not size:
+                        obj_dict['length'] = 0
+                        obj_dicts.append(obj_dict)
+                        continue
+""", 'C10.R')
+M('c17-cached-pack-end', 'C17', """                    obj_dict['offset'] = pack_handle.tell()
+                    try:
+                        with open(self._get_loose_path_from_hashkey(loose_hashkey), 'rb') as loose_handle:""", """                    obj_dict['offset'] = pack_end
+                    try:
+                        with open(self._get_loose_path_from_hashkey(loose_hashkey), 'rb') as loose_handle:""", 'C17.R3')
